@@ -297,6 +297,16 @@ class DecorGen:
         t += ["acl", "internal", "{", '"10.0.0.0"', "/", "8", ";", "!", '"10.1.0.0"', "/", "16", ";", '"192.168.0.1"', ";", "}"]
         t += ["table", "t1", "{", '"k"', ":", '"v"', ",", '"k2"', ":", '"v2"', ",", "}"]
         t += ["penaltybox", "pb1", "{", "}", "ratecounter", "rc1", "{", "}"]
+        typed = r.random() < 0.5
+        if typed:
+            # typed tables: every entry value is a literal node of its own kind (comments attach to it)
+            self._c("decl:typed-tables")
+            t += ["table", "tr", "RTIME", "{", '"short"', ":", "90s", ",", '"long"', ":", "2d", ",", "}"]
+            t += ["table", "ti", "INTEGER", "{", '"a"', ":", "10", ",", '"b"', ":", "0x1F", ",", "}"]
+            t += ["table", "tf", "FLOAT", "{", '"a"', ":", "1.5", ",", "}"]
+            t += ["table", "tb", "BOOL", "{", '"a"', ":", "true", ",", '"b"', ":", "false", ",", "}"]
+            t += ["table", "tacl", "ACL", "{", '"a"', ":", "internal", ",", "}"]
+            t += ["table", "tbe", "BACKEND", "{", '"a"', ":", "example", ",", "}"]
         m = r.random()
         if m < 0.35:
             t += [ann("# @scope: recv, fetch, deliver, miss, pass, hit, error, log, hash")]
@@ -316,6 +326,18 @@ class DecorGen:
             if inject and r.random() < 0.6:
                 body = self.injected(scope) + body if r.random() < 0.5 else body + self.injected(scope)
             t += body
+            if scope == "recv" and typed:
+                t += ["declare", "local", "var.tr", "RTIME", ";", "set", "var.tr", "=", "table.lookup_rtime", "(", "tr", ",",
+                      r.choice(['"short"', '"long"', '"none"']), ",", "1s", ")", ";", "log", '"tr="', "var.tr", ";"]
+                t += ["declare", "local", "var.ti", "INTEGER", ";", "set", "var.ti", "=", "table.lookup_integer", "(", "ti", ",",
+                      r.choice(['"a"', '"b"']), ",", "7", ")", ";", "log", '"ti="', "var.ti", ";"]
+                t += ["declare", "local", "var.tf", "FLOAT", ";", "set", "var.tf", "=", "table.lookup_float", "(", "tf", ",",
+                      '"a"', ",", "0.5", ")", ";", "log", '"tf="', "var.tf", ";"]
+                t += ["if", "(", "table.lookup_bool", "(", "tb", ",", r.choice(['"a"', '"b"']), ",", "false", ")", ")", "{",
+                      "log", '"tb"', ";", "}"]
+                t += ["if", "(", "client.ip", "~", "table.lookup_acl", "(", "tacl", ",", '"a"', ",", "internal", ")", ")", "{",
+                      "log", '"tacl"', ";", "}"]
+                t += ["set", "req.http.TBE", "=", "table.lookup_backend", "(", "tbe", ",", '"a"', ",", "example", ")", ";"]
             if scope == "recv":
                 t += ["set", "req.backend", "=", "dir1" if director and r.random() < 0.7 else "example", ";"]
                 if r.random() < 0.25:
@@ -352,7 +374,8 @@ class DecorGen:
 import re
 
 ORDINARY = ["/* c */", "/* lookup */", "/*x*/", "/* multi\n   line */", "/* # not-a-macro */", "/**/"]
-LINE = ["# plain", "// plain", "# scope: recv", "#", "// return (pass);", "# TODO: x"]
+LINE = ["# plain", "// plain", "# scope: recv", "#", "// return (pass);", "# TODO: x",
+        "# FASTLY recv", "#fastly recv", "// falco ignore next line", "# ignore-next-line", "// scope: deliver, fetch"]
 
 
 def render(tokens, gaps):
@@ -470,7 +493,7 @@ def decorate(tokens, rng, style):
             elif k < 0.75:
                 g = " /*\n" + "\n".join([code] * (size // len(code))) + "\n*/ "
             elif k < 0.9:
-                g = "\n" * rng.choice([1000, 3000, 5000])
+                g = "\n" * rng.choice([1000, 3000, 5000, 1000, 3000, 70000])       # line numbers cross 256 and 65536
             else:
                 g = "\n" + rng.choice([" ", "\t"]) * size
             gaps[i] = g
